@@ -9,7 +9,8 @@ From HL7 Require Import Lib.Str Model.Ec Model.Escape Model.Result Model.Ref Mod
 From HL7 Require Import Gen.Params Gen.Tables.
 From HL7 Require Import Proofs.EscapeFacts Proofs.SplitJoin Proofs.LevelCodec Proofs.RoundTripStr Proofs.RoundTripCore
   Proofs.RoundTripVT Proofs.RoundTripZ Proofs.RoundTripTables Proofs.RoundTripSeg Proofs.RoundTripMsh
-  Proofs.RoundTripSegTables.
+  Proofs.RoundTripSegTables Proofs.RoundTripMsg Proofs.RoundTripMsgTables.
+From HL7 Require Import Model.Header Model.MsgTree Model.Message.
 Import ListNotations.
 Open Scope bs_scope.
 
@@ -144,7 +145,7 @@ Theorem C01_segment_text : forall v t, tables_of v = Some t ->
 Proof.
   intros v t Ht e He sn r Hin Ha Hm.
   destruct (shipped_table_facts v t Ht) as [Hst [Hvar _]].
-  destruct (shipped_segment_ok v t sn r Ht Hin Ha Hm) as [Hl [srows [-> [H3 [Hup [Hmsh [Hz [Hc [Hrows Hnof]]]]]]]]].
+  destruct (shipped_segment_ok v t sn r Ht Hin Ha Hm) as [Hl [srows [-> [H3 [Hup [Hmsh [Hz [Hc [Hrows [Hnof _]]]]]]]]]].
   exists srows. split; [reflexivity|]. intros fs Hn Hlen Hf text.
   destruct (seg_table_roundtrip t e (leaf_enc v TOLERANT e) He Hst Hvar sn srows fs H3 Hup Hmsh Hz Hl Hc Hrows Hn Hlen Hf)
     as [s [gs [Hp [_ [_ Henc]]]]].
@@ -195,7 +196,7 @@ Theorem C01_segment : forall v t, tables_of v = Some t ->
 Proof.
   intros v t Ht e He sn r Hin Ha Hm.
   destruct (shipped_table_facts v t Ht) as [Hst [Hvar _]].
-  destruct (shipped_segment_ok v t sn r Ht Hin Ha Hm) as [Hl [srows [-> [H3 [Hup [Hmsh [Hz [Hc [Hrows Hnof]]]]]]]]].
+  destruct (shipped_segment_ok v t sn r Ht Hin Ha Hm) as [Hl [srows [-> [H3 [Hup [Hmsh [Hz [Hc [Hrows [Hnof _]]]]]]]]]].
   exists srows. split; [reflexivity|]. intros vt Hcan Hlen Hw text.
   exact (seg_table_roundtrip_vt t e (leaf_enc v TOLERANT e) He Hst Hvar sn srows vt H3 Hup Hmsh Hz Hl Hc Hrows Hcan Hlen Hw).
 Qed.
@@ -217,7 +218,7 @@ Theorem C01_field : forall v t, tables_of v = Some t ->
 Proof.
   intros v t Ht e He sn r Hin Ha Hm.
   destruct (shipped_table_facts v t Ht) as [Hst [Hvar _]].
-  destruct (shipped_segment_ok v t sn r Ht Hin Ha Hm) as [Hl [srows [-> [H3 [Hup [Hmsh [Hz [Hc [Hrows Hnof]]]]]]]]].
+  destruct (shipped_segment_ok v t sn r Ht Hin Ha Hm) as [Hl [srows [-> [H3 [Hup [Hmsh [Hz [Hc [Hrows [Hnof _]]]]]]]]]].
   exists srows. split; [reflexivity|]. intros i row fr fv text Hi Hn Hr Hok.
   destruct (field_roundtrip t e (leaf_enc v TOLERANT e) Hst Hvar sn srows i row fr fv text H3 Hup Hmsh Hc Hrows Hi Hn Hr Hok)
     as [x [Hp [_ Henc]]].
@@ -244,7 +245,7 @@ Theorem C01_component : forall v t, tables_of v = Some t ->
 Proof.
   intros v t Ht e He sn r Hin Ha Hm.
   destruct (shipped_table_facts v t Ht) as [Hst [Hvar _]].
-  destruct (shipped_segment_ok v t sn r Ht Hin Ha Hm) as [Hl [srows [-> [H3 [Hup [Hmsh [Hz [Hc [Hrows Hnof]]]]]]]]].
+  destruct (shipped_segment_ok v t sn r Ht Hin Ha Hm) as [Hl [srows [-> [H3 [Hup [Hmsh [Hz [Hc [Hrows [Hnof _]]]]]]]]]].
   exists srows. split; [reflexivity|]. intros row inf D rows j crow text Hrow Hr Hdt HlD Hj Hn Hok.
   destruct (Hrows row Hrow) as [fr [Hr' HK]]. rewrite Hr in Hr'. injection Hr' as <-.
   destruct HK as [D' [rows' [Hdt' [HlD' Hg]]]]. rewrite Hdt in Hdt'. injection Hdt' as <-.
@@ -296,9 +297,10 @@ Proof.
   destruct (shipped_table_facts v t Ht) as [Hst [Hvar [_ [f [mx Hrow]]]]].
   destruct (shipped_msh_ok v t Ht) as [srows [row1 [row2 [inf1 [inf2 [Hl [Hc [Hrows [Hn1 [Hn2 [Hr1 [Hr2 [Hd1 Hd2]]]]]]]]]]]]].
   exists srows. split; [exact Hl|]. intros m2 fs Hb Hf Hcr Hnt Hlen Hfs.
-  exact (msh_roundtrip t e (leaf_enc v TOLERANT e) He Hst Hvar srows Hl Hc Hrows row1 row2 inf1 inf2
+  destruct (msh_roundtrip t e (leaf_enc v TOLERANT e) He Hst Hvar srows Hl Hc Hrows row1 row2 inf1 inf2
            Hn1 Hn2 Hr1 Hr2 Hd1 Hd2 m2 _ _ fs Hb Hf Hcr (leaf_enc_ST v e _ f mx Hrow) (leaf_enc_ST v e _ f mx Hrow)
-           Hnt Hlen Hfs).
+           Hnt Hlen Hfs) as [s [Hp [Henc _]]].
+  exists s. split; assumption.
 Qed.
 Print Assumptions C01_segment_MSH.
 
@@ -336,3 +338,124 @@ Proof.
     by (vm_compute; reflexivity).
   intros i f Hif. rewrite forallb_forall in L. apply tfield_textb_sound. exact (L _ Hif).
 Qed.
+
+(* ---- whole messages, find_groups = false ----
+   The message is the MSH line `MSH` + fsep + MSH-2 (= the delimiters of e) + the header fields hf,
+   followed by canonical segment lines (canonical_line: a table segment line as in C01_segment_text
+   or a Z-segment line as in C01_segment_Z_text, not empty, without CR and without surrounding
+   white space), joined by CR.  The version read from MSH-12 (or the default) names the tables t;
+   a truncation character requires MSH-12 >= 2.7 for the parser and version >= 2.7 for to_er7.
+   Hypothesis on the Message constructor: it accepts the message name found in MSH-9 (or falls
+   back to an unnamed message) - the name plays no role in the round trip. *)
+Theorem C01_message_flat : forall dflt e (hf lines : list str) t m0,
+  ec_valid esc_family_0 e = true ->
+  Forall (fun f => bmem (fsep e) f = false /\ bmem CR f = false) hf ->
+  (forall tr, tsep e = Some tr -> (exists vf, nth_error hf 9 = Some vf /\ ge_27 vf = true) /\ ge_27 (t_version t) = true) ->
+  let v := msg_version dflt e hf in
+  tables_of v = Some t ->
+  (match new_message TOLERANT t e (hdr_structure e hf) with
+   | Err (HL7 EInvalidName) => new_message TOLERANT t e None
+   | r => r end) = Ok m0 ->
+  (* the MSH line *)
+  strip (msh_line e hf) = msh_line e hf -> no_trail (msh2_of e :: hf) ->
+  (forall srows, slookup MSH (t_segments t) = Some (SSeqIn false srows None) ->
+     2 + length hf <= length srows /\
+     forall i f, In (i, f) (combine (seq 3 (length hf)) hf) -> tfield_text t e (leaf_enc v TOLERANT e) srows i f) ->
+  (* the other lines *)
+  Forall (canonical_line t e (leaf_enc v TOLERANT e)) lines ->
+  let text := bjoin CR (msh_line e hf :: lines) in
+  exists m, parse_message tables_of dflt TOLERANT false text = Ok (t, m) /\ enc_message t TOLERANT m = Ok text.
+Proof.
+  intros dflt e hf lines t m0 Hev Hhf Htr v Ht Hnew Hstrip Hnt Hmsh Hlines text.
+  destruct (ec_valid_header _ e Hev) as [He Hfm].
+  destruct (msh_line_rt v t e hf Ht He) as [srows [Hl Hrt0]].
+  destruct (Hmsh srows Hl) as [Hlen Hfs].
+  destruct (Hrt0 Hnt Hlen Hfs) as [s0 [Hp0 [Henc0 [Hk0 [Hn0 [Hv1 Hv2]]]]]].
+  assert (Hsegs : exists segs, Forall2 (fun l s => parse_segment t TOLERANT e (leaf_enc v TOLERANT e) l None = Ok s /\
+                                                  enc_segment t e s false = Ok l /\ known_name t (s_name s)) lines segs).
+  { clear -Ht He Hlines. induction Hlines as [|l ls Hl _ [segs IH]]; [exists []; constructor|].
+    destruct (canonical_line_rt v t e l Ht (ec_header_ok_ec_ok e He) Hl) as [s Hs]. exists (s :: segs). now constructor. }
+  destruct Hsegs as [segs Hsegs].
+  apply (message_flat_roundtrip tables_of dflt t e He Hfm hf Hhf (fun tr H => proj1 (Htr tr H)) Ht
+           (fun tr H => proj2 (Htr tr H)) lines s0 segs m0 Hnew); auto.
+  eapply Forall_impl; [|exact Hlines]. intros l [A [B [C _]]]. auto.
+Qed.
+Print Assumptions C01_message_flat.
+
+(* a concrete message through the model's parse_message / enc_message *)
+Definition example_msg : str :=
+  unbs "MSH|^~\&|SND|FAC|RCV|RFAC|20200101120000||ADT^A01^ADT_A01|42|P|2.5" ++ [CR] ++
+  unbs "EVN||20200101" ++ [CR] ++ unbs "PID|1||a^^^x&&z~^b&c||n1&n2&n3&n4^g" ++ [CR] ++ unbs "ZAB|u^v&w~~x||y".
+Example C01_message_flat_example :
+  (match parse_message tables_of "2.5" TOLERANT false example_msg with
+   | Ok (t, m) => enc_message t TOLERANT m
+   | Err x => Err x end) = Ok example_msg.
+Proof. vm_compute. reflexivity. Qed.
+
+(* ---- whole messages, find_groups = true ----
+   Same message, same hypotheses, plus the table premises of the group search (C08): the tables
+   write every segment row of a message / group structure by name (msg_tables_ok: all shipped
+   versions but 2.1), and for the message structure found for MSH-9: its group rows are written by
+   name (tab_ok), group names are distinct along every path (names_distinct) - both decided per
+   version in Oblig/C08_v2_X.v - and MSH is a direct child of it.  Whenever parse_message with
+   find_groups accepts the message, to_er7 returns the text: every segment of the grouped tree is
+   the flat parse of its own line (the segment remembers its reference, which is the table's), and
+   grouped and flat children encode identically (C08_same_encoding). *)
+Theorem C01_message_groups : forall dflt e (hf lines : list str) t m0,
+  ec_valid esc_family_0 e = true ->
+  Forall (fun f => bmem (fsep e) f = false /\ bmem CR f = false) hf ->
+  (forall tr, tsep e = Some tr -> (exists vf, nth_error hf 9 = Some vf /\ ge_27 vf = true) /\ ge_27 (t_version t) = true) ->
+  let v := msg_version dflt e hf in
+  tables_of v = Some t -> msg_tables_ok t = true ->
+  (match new_message TOLERANT t e (hdr_structure e hf) with
+   | Err (HL7 EInvalidName) => new_message TOLERANT t e None
+   | r => r end) = Ok m0 ->
+  (forall st, m_st m0 = Some st ->
+     GroupsFacts.tab_ok t 12 (st_reference st) = true /\ GroupsMirror.names_distinct t 12 [] (st_reference st) = true /\
+     match Groups.search t Groups.search_fuel MSH (st_reference st) with
+     | Ok None => True | Ok (Some (_, [])) => True | _ => False end) ->
+  strip (msh_line e hf) = msh_line e hf -> no_trail (msh2_of e :: hf) ->
+  (forall srows, slookup MSH (t_segments t) = Some (SSeqIn false srows None) ->
+     2 + length hf <= length srows /\
+     forall i f, In (i, f) (combine (seq 3 (length hf)) hf) -> tfield_text t e (leaf_enc v TOLERANT e) srows i f) ->
+  Forall (canonical_line t e (leaf_enc v TOLERANT e)) lines ->
+  let text := bjoin CR (msh_line e hf :: lines) in
+  forall m, parse_message tables_of dflt TOLERANT true text = Ok (t, m) -> enc_message t TOLERANT m = Ok text.
+Proof.
+  intros dflt e hf lines t m0 Hev Hhf Htr v Ht Hmt Hnew Hst Hstrip Hnt Hmsh Hlines text.
+  destruct (ec_valid_header _ e Hev) as [He Hfm].
+  destruct (msh_line_rt v t e hf Ht He) as [srows [Hl Hrt0]].
+  destruct (Hmsh srows Hl) as [Hlen Hfs].
+  destruct (Hrt0 Hnt Hlen Hfs) as [s0 [Hp0 [Henc0 [Hk0 [Hn0 [Hv1 Hv2]]]]]].
+  assert (Hsegs : exists segs, Forall2 (fun l s => parse_segment t TOLERANT e (leaf_enc v TOLERANT e) l None = Ok s /\
+                                                  enc_segment t e s false = Ok l /\ known_name t (s_name s)) lines segs).
+  { clear -Ht He Hlines. induction Hlines as [|l ls Hl _ [segs IH]]; [exists []; constructor|].
+    destruct (canonical_line_rt v t e l Ht (ec_header_ok_ec_ok e He) Hl) as [s Hs]. exists (s :: segs). now constructor. }
+  destruct Hsegs as [segs Hsegs].
+  apply (message_groups_roundtrip tables_of dflt t e He Hfm hf Hhf (fun tr H => proj1 (Htr tr H)) Ht
+           (fun tr H => proj2 (Htr tr H)) lines s0 segs m0 Hnew); auto.
+  - eapply Forall_impl; [|exact Hlines]. intros l [A [B [C _]]]. auto.
+  - intros st Hm. destruct (Hst st Hm) as [H1 [H2 H3]]. cbv zeta.
+    split; [now apply (GroupsFacts.tab_ok_sound t 12)|].
+    split; [intros ex Hc; now apply (GroupsMirror.names_distinct_sound t 12 [] _ H2 ex)|].
+    split; [|exact H3].
+    intros pr n sr. apply (rows_named_sound t Hmt).
+    destruct (new_message TOLERANT t e (hdr_structure e hf)) as [m1|ex] eqn:E1.
+    + injection Hnew as <-. exact (new_message_root t TOLERANT e _ _ st E1 Hm).
+    + destruct ex as [c| | |]; try discriminate. destruct c; try discriminate. exact (new_message_root t TOLERANT e _ _ st Hnew Hm).
+  - intros n sr. apply (seg_keys_sound t Hmt).
+Qed.
+Print Assumptions C01_message_groups.
+
+(* the premises hold for ADT_A01 of v2.5, and the model round-trips a grouped message *)
+Example C01_message_groups_example :
+  let t := Gen.Tables_v2_5.tables in
+  msg_tables_ok t = true /\
+  (match slookup "ADT_A01" (t_messages t) with
+   | Some root => GroupsFacts.tab_ok t 12 root && GroupsMirror.names_distinct t 12 [] root &&
+                  match Groups.search t Groups.search_fuel MSH root with Ok (Some (_, [])) => true | _ => false end
+   | None => false end) = true /\
+  (match parse_message tables_of "2.5" TOLERANT true example_msg with
+   | Ok (t, m) => enc_message t TOLERANT m
+   | Err x => Err x end) = Ok example_msg.
+Proof. repeat split; vm_compute; reflexivity. Qed.
